@@ -468,10 +468,10 @@ def state_save_restore(ctx):
         return [missing(S if sb is None else R)]
     for p in checked(d, "save", sb, ctx.walk(sb).paths, only=lambda p: p.end == "return"):
         r = strip_ver(render(p.ret))
-        _rec(d, "save|whole-state-copied", r in ("RefCell::borrow(a1.state).capture_state", "clone(RefCell::borrow(a1.state).capture_state)"), "capture_state() must hand out a copy of the whole capture state; found %s" % r[:120], sb.loc(p.blocks[-1]))
+        _rec(d, "save|whole-state-copied", r in ("a1.state.capture_state", "clone(a1.state.capture_state)"), "capture_state() must hand out a copy of the whole capture state; found %s" % r[:120], sb.loc(p.blocks[-1]))
     for p in checked(d, "restore", rb, ctx.walk(rb).paths, only=lambda p: p.end == "return"):
         stores = [(strip_ver(render(e[1])), strip_ver(render(e[2]))) for e in p.effects if e[0] == "store"]
-        good = stores in ([("RefCell::borrow_mut(a1.state).capture_state", "a2")], [("RefCell::borrow_mut(a1.state).capture_state", "clone(a2)")], [("RefCell::borrow_mut(a1.state).capture_state", "*a2")])
+        good = stores in ([("a1.state.capture_state", "a2")], [("a1.state.capture_state", "clone(a2)")], [("a1.state.capture_state", "*a2")])
         calls = [e for e in p.effects if e[0] == "call" and not any(x in str(e[1]) for x in ("borrow_mut", "deref_mut", "deref", "clone", "drop"))]
         _rec(d, "restore|whole-state-replaced", good and not calls, "reset_state(s) must replace the whole capture state by s (one store to state.capture_state); found stores %s, calls %s" % (stores[:3], [e[1] for e in calls][:3]), rb.loc(p.blocks[-1]))
     # the copy is a field-by-field copy: Clone for CaptureState is derived
